@@ -6,7 +6,7 @@ use proc_macro2::TokenStream;
 use quote::quote;
 
 use super::super::super::conversions::{
-    BinOpEmitKind, ConversionContext, NumericConversion, determine_binop_plan, determine_conversion,
+    BinOpEmitKind, ConversionContext, determine_binop_plan, determine_conversion,
 };
 use super::super::super::expr::{BinOp, IrCallArg, IrExprKind, TypedExpr, VarAccess, VarRefKind};
 use super::super::super::types::{IrType, Mutability};
@@ -156,17 +156,15 @@ impl<'a> IrEmitter<'a> {
 
         // Determine binop plan (conversions + emit strategy)
         let plan = determine_binop_plan(op, left, right);
-        let lhs_is_cast = !matches!(plan.lhs_conv, NumericConversion::None);
         let l = plan.lhs_conv.apply(l_raw);
         let r = plan.rhs_conv.apply(r_raw);
-        // A promoted left operand is emitted as `(x) as f64`. Rust does not accept a cast directly
-        // followed by a method call (`(x) as f64.powf(..)`) or by `<` (parsed as generic arguments
-        // of `f64`), so group the cast in exactly those positions.
-        let l = if lhs_is_cast && (matches!(plan.emit, BinOpEmitKind::Pow { .. }) || matches!(op, BinOp::Lt)) {
-            quote! { (#l) }
-        } else {
-            l
-        };
+        // Operands are spliced as text, so a left operand whose tokens end in an `as` cast
+        // (`(x) as f64`, `a + (b) as f64`, `xs.len() as i64`) has to be grouped where the next
+        // token would otherwise be read as part of the cast type: a method call
+        // (`.. as f64.powf(..)`) and `<` / `<<` (generic arguments).
+        let group_lhs = matches!(plan.emit, BinOpEmitKind::Pow { .. }) || matches!(op, BinOp::Lt | BinOp::Shl);
+        let group_lhs = group_lhs && ends_in_cast(&l);
+        let l = if group_lhs { quote! { (#l) } } else { l };
 
         match plan.emit {
             BinOpEmitKind::StdlibCall { path } => Ok(quote! { #path(#l, #r) }),
@@ -199,4 +197,17 @@ impl<'a> IrEmitter<'a> {
             }
         }
     }
+}
+
+/// Whether the emitted tokens end in an `as` cast (`x as i64`, `a + (b) as f64`, `-(a) as f64`).
+fn ends_in_cast(tokens: &TokenStream) -> bool {
+    fn tail_is_cast(expr: &syn::Expr) -> bool {
+        match expr {
+            syn::Expr::Cast(_) => true,
+            syn::Expr::Binary(binary) => tail_is_cast(&binary.right),
+            syn::Expr::Unary(unary) => tail_is_cast(&unary.expr),
+            _ => false,
+        }
+    }
+    syn::parse2::<syn::Expr>(tokens.clone()).is_ok_and(|expr| tail_is_cast(&expr))
 }
